@@ -153,6 +153,9 @@ def do_replay(path):
             out = _verify_worker((rec['contract'], 10000, 3000, 2))
             hit = [o for o in out.get('obligations', []) if o['oid'] == rec['obligation']]
             ok = bool(hit) and all(o['verdict'] == 'proved' for o in hit)
+            if rec['obligation'].endswith('::paths:every path through the function is verified'):
+                ok = not out.get('unsupported') and not out.get('errors') and not out.get('crash') and all(o['verdict'] == 'proved' for o in out.get('obligations', []))
+                hit = [{'verdict': 'proved' if ok else 'path not verified: ' + '; '.join(u['why'] for u in out.get('unsupported', []))[:200]}]
             print(json.dumps({'obligation': rec['obligation'], 'now': sorted({o['verdict'] for o in hit}) or 'not generated', 'crash': out.get('crash')}, indent=1))
         if not ok:
             print(f"VIOLATION property={rec['property']} replay={path} no-failing-input-found")
@@ -335,6 +338,29 @@ def check_property(prop, tier, a):
                        'verifier does not accept the new code, so the obligation is not discharged. No counterexample was produced.'}
         violations.append({'fingerprint': oid, 'record': rec, 'reproduced': False,
                            'what': f"obligation '{oid.split('::', 1)[1]}' of {key} is no longer discharged after the function changed ({why[:120]})"})
+
+    # ... and the same when the obligations are still generated on some paths but another path through the changed function ends in
+    # something the verifier does not accept: a postcondition 'proved' on the remaining paths is not discharged for the function.
+    reported_keys = {v['record'].get('contract') for v in violations if v['record'].get('kind') == 'obligation-not-discharged'}
+    for r in results:
+        key = r['key']
+        hb, hn = src_base.get(key), src_now.get(key)
+        if key in reported_keys or not (hb and hn and hb != hn) or not (r['unsupported'] or r['errors']):
+            continue
+        if not any(v == 'proved' and oid.startswith(key + '::') for oid, v in baseline.items()):
+            continue
+        whys = {u['why'] for u in r['unsupported']} | {e['why'] for e in r['errors']}
+        if any('not bound' in w for w in whys):
+            continue
+        why = '; '.join(sorted(whys))[:300]
+        oid = f'{key}::paths:every path through the function is verified'
+        rec = {'property': prop, 'kind': 'obligation-not-discharged', 'contract': key, 'obligation': oid, 'function': r.get('target'),
+               'tier': 'T1', 'backend': 'pyvc / z3 ' + z3_version(), 'solver_answer': 'path not verified: ' + why,
+               'baseline_verdict': 'proved', 'code_hash_baseline': hb, 'code_hash_now': hn, 'model': None,
+               'note': 'on the committed tree every path through this function was verified against its contract; the function has changed and a path '
+                       'now ends in a construct the verifier does not accept, so the postconditions are not discharged for it. No counterexample was produced.'}
+        violations.append({'fingerprint': oid, 'record': rec, 'reproduced': False,
+                           'what': f"a path through {key} is no longer verified after the function changed ({why[:120]})"})
 
     # --- native function-level T3 ------------------------------------------------------
     fn_evals = fn_distinct = 0
